@@ -22,6 +22,8 @@ func extraAgents(s *Sim) []Agent {
 	add("oraclechaos", &OracleChaosAgent{newBase(s, "oraclechaos")})
 	add("govchaos", &GovChaosAgent{baseAgent: newBase(s, "govchaos")})
 	add("incentive", &IncentiveAgent{newBase(s, "incentive")})
+	add("orders", &OrdersAgent{newBase(s, "orders")})
+	add("executor", &ExecutorAgent{baseAgent: newBase(s, "executor")})
 	return out
 }
 
@@ -40,6 +42,7 @@ func extraMonitors(s *Sim) []Monitor {
 		newMonC07(s),
 		newMonC13(s),
 		newMonC10(s),
+		newMonC20(s),
 	}
 }
 
